@@ -442,6 +442,56 @@ pub fn build_send<'a>(kind: MsgKind, tid: usize, seal: Sealing, payload: u16) ->
     if payload % 2 == 1 {
         let _ = b.add_raw_attribute(RawAttribute::new(AttributeType::new(0xff41), &[payload as u8, (payload >> 8) as u8]).into_owned());
     }
+    // most messages also carry an attribute with a registered type code (STUN, TURN, ICE, NAT
+    // behaviour discovery, RFC 7982 ...) of the size that type has on the wire: whatever the
+    // application put into its message is what goes out, every time
+    if payload % 5 >= 2 {
+        const REGISTERED: [(u16, usize); 36] = [
+            (0x8025, 4),
+            (0x0024, 4),
+            (0x0025, 0),
+            (0x8029, 8),
+            (0x802a, 8),
+            (0x0006, 9),
+            (0x0014, 13),
+            (0x0015, 16),
+            (0x8022, 7),
+            (0x0019, 4),
+            (0x000d, 4),
+            (0x0012, 8),
+            (0x0012, 20),
+            (0x0013, 37),
+            (0x000c, 4),
+            (0x0017, 4),
+            (0x001a, 0),
+            (0x0022, 8),
+            (0x8000, 4),
+            (0xc057, 4),
+            (0x0026, 11),
+            (0x0027, 4),
+            (0x802b, 8),
+            (0x802c, 20),
+            (0x001d, 4),
+            (0x001e, 32),
+            (0x8002, 8),
+            (0x8003, 11),
+            (0x0003, 4),
+            (0x002a, 4),
+            (0x8004, 8),
+            (0x0020, 8),
+            (0x0001, 8),
+            (0x0009, 8),
+            (0x000a, 4),
+            (0x8023, 8),
+        ];
+        let (t, n) = REGISTERED[(payload as usize / 5) % REGISTERED.len()];
+        let fill = match payload % 3 {
+            0 => 0u8,
+            1 => 1,
+            _ => payload as u8,
+        };
+        let _ = b.add_raw_attribute(RawAttribute::new(AttributeType::new(t), &vec![fill; n]).into_owned());
+    }
     if impure_payload(payload) && seal == Sealing::None {
         let _ = b.add_attribute(&COUNTING_ATTR);
     }
@@ -747,7 +797,79 @@ impl<'c> Eng<'c> {
             self.ctx.violation("C07", &a, entry, feature, || w, expected, observed);
             return;
         }
+        // C06: "the transaction times out exactly ... after the final transmission", "polling at t
+        // yields an event".  A lifecycle disagreement (the transaction is gone, or its id is free)
+        // while the model holds a transaction that is due and has not been served means an event
+        // the schedule owes at this instant will never be produced: the C06 check reports it.
+        if self.ctx.prop == "C06" && tag == "C05" {
+            let now = self.now;
+            if let Some((i, tx)) = self.model.txs.iter().find(|(_, t)| t.due().0 <= now) {
+                let a = format!("due-event-produced/{assertion}");
+                let exp = format!("tid#{i} is due ({:?}) since {} (now {}): {expected}", tx.due().2, ft(tx.due().0 as i128), ft(now as i128));
+                self.ctx.violation("C06", &a, entry, feature, || w, exp, observed);
+                return;
+            }
+        }
+        // C05: "each request handed to the agent ends in exactly one of ...".  When the agent's
+        // timing disagrees with the schedule, the C05 check asks the only question it owns: driven
+        // far beyond every deadline, does each outstanding request still complete, exactly once?
+        if self.ctx.prop == "C05" && tag == "C06" {
+            if let Some((exp, obs)) = self.completion_probe() {
+                self.ctx.violation("C05", "completes-exactly-once", "StunAgent::poll", "driven-past-every-deadline", || w, exp, obs);
+                return;
+            }
+        }
         self.ctx.violation(tag, assertion, entry, feature, || w, expected, observed);
+    }
+
+    /// Poll the agent far beyond every deadline until it reports nothing more: every transaction
+    /// that is outstanding in the model must be reported timed out or cancelled exactly once and be
+    /// gone afterwards.  Returns (expected, observed) on a disagreement.
+    fn completion_probe(&mut self) -> Option<(String, String)> {
+        let want: Vec<usize> = self.model.txs.keys().copied().collect();
+        if want.is_empty() {
+            return None;
+        }
+        let mut far = self.at(self.now) + Duration::from_secs(400_000);
+        let mut done: BTreeMap<usize, u32> = BTreeMap::new();
+        let agent = &mut self.agent;
+        let r = guard(|| {
+            let mut evs: Vec<[u8; 12]> = vec![];
+            for _ in 0..(want.len() * 24 + 128) {
+                match agent.poll(far) {
+                    // a retransmission handed out at `far` restarts that transaction's interval: follow
+                    // the instants the agent itself announces until nothing is outstanding any more
+                    StunAgentPollRet::WaitUntil(w) => {
+                        if want.iter().all(|i| agent.request_transaction(imp::tid_from_bytes(&tid_bytes(*i))).is_none()) {
+                            break;
+                        }
+                        far = if w > far { w } else { far + Duration::from_secs(3600) };
+                    }
+                    StunAgentPollRet::SendData(_) => {}
+                    StunAgentPollRet::TransactionTimedOut(id) | StunAgentPollRet::TransactionCancelled(id) => evs.push(imp::tid_to_bytes(id)),
+                }
+            }
+            let still: Vec<bool> = want.iter().map(|i| agent.request_transaction(imp::tid_from_bytes(&tid_bytes(*i))).is_some()).collect();
+            (evs, still)
+        });
+        let Ok((evs, still)) = r else { return None };
+        for t in evs {
+            if let Some(i) = tid_index(&t) {
+                *done.entry(i).or_default() += 1;
+            }
+        }
+        let bad: Vec<String> = want
+            .iter()
+            .zip(still.iter())
+            .filter(|(i, st)| **st || done.get(*i).copied().unwrap_or(0) != 1)
+            .map(|(i, st)| format!("tid#{i}: {} completion events, still outstanding = {st}", done.get(i).copied().unwrap_or(0)))
+            .collect();
+        if bad.is_empty() {
+            None
+        } else {
+            self.ctx.count("completion-probes-failed");
+            Some((format!("each of the {} outstanding requests reported timed out / cancelled exactly once when polled 400000 s later, and gone afterwards", want.len()), bad.join("; ")))
+        }
     }
 
     /// log the latest observation if it differs from the last one logged (called where the state
